@@ -125,13 +125,15 @@ class Runner:
         sp = env.action_space
         samp = sp.sample(key=key)
         if isinstance(sp, Box):
-            lo = jnp.where(jnp.isfinite(sp.low), sp.low, -3.0)
-            hi = jnp.where(jnp.isfinite(sp.high), sp.high, 3.0)
+            # unbounded dimensions (the action space of ClipAction): the "corners" are the infinities themselves — they are
+            # members of Box(-inf, inf) and must be clipped onto the inner bounds; `mixed` uses huge finite values
+            lo = jnp.where(jnp.isfinite(sp.low), sp.low, -jnp.inf)
+            hi = jnp.where(jnp.isfinite(sp.high), sp.high, jnp.inf)
             phase = (i // jnp.maximum(period, 1)) % 2
             alt = jnp.where(phase == 0, lo, hi)
-            mixed = jnp.where(jr.bernoulli(key, 0.5, lo.shape), lo, hi)
+            mixed = jnp.where(jr.bernoulli(key, 0.5, lo.shape), jnp.maximum(lo, -1e30), jnp.minimum(hi, 1e30))
             return lax.switch(jnp.clip(mode, 0, 5), [lambda: samp, lambda: lo + 0 * samp, lambda: hi + 0 * samp, lambda: alt + 0 * samp, lambda: mixed + 0 * samp,
-                                                     lambda: self._greedy(env, state, key, [lo + 0 * samp, hi + 0 * samp, mixed + 0 * samp])])
+                                                     lambda: self._greedy(env, state, key, [jnp.maximum(lo, -1e30) + 0 * samp, jnp.minimum(hi, 1e30) + 0 * samp, mixed + 0 * samp])])
         if isinstance(sp, Discrete):
             n = sp.n
             phase = (i // jnp.maximum(period, 1)) % 2
